@@ -12,9 +12,11 @@ import (
 	"net/http/httptest"
 	"net/http/httptrace"
 	"net/textproto"
+	"runtime"
 	"sort"
 	"strings"
 	"sync"
+	"sync/atomic"
 	"time"
 
 	"github.com/unkn0wn-root/kioshun"
@@ -676,7 +678,7 @@ func ccForbids(v string) (string, bool) {
 func streamTrie(o opts) {
 	r := newRand(o.seed, "trie")
 	m := newMeta("trie", o.seed)
-	m.Rule = "addKey/removeKeyByIdentity/getMatchingKeys/clear sequences on the real pattern index over paths built from 4 segment names with duplicate, leading and trailing slashes, exact and wildcard patterns, stale identities; non-trivial = trace with an interior node holding keys above a pruned branch; distinct by (depth of pruning, wildcard seen)"
+	m.Rule = "addKey/removeKeyByIdentity/getMatchingKeys/clear sequences on the real pattern index over paths built from 4 segment names with runs of 1-5 duplicate, leading and trailing slashes (a separator drawn per joint), exact and wildcard patterns, stale identities; non-trivial = trace with an interior node holding keys above a pruned branch; distinct by (depth of pruning, wildcard seen)"
 	w := newTraceWriter(o.out, "trie")
 	segs := []string{"api", "users", "v1", "x"}
 	mkPath := func() (string, []string) {
@@ -685,9 +687,16 @@ func streamTrie(o opts) {
 		for i := 0; i < d; i++ {
 			parts = append(parts, pick(r, segs))
 		}
-		s := "/" + strings.Join(parts, pick(r, []string{"/", "/", "//"}))
+		seps := []string{"/", "/", "/", "//", "///", "////", "/////"}
+		s := pick(r, []string{"/", "/", "/", "//", "///"})
+		for i, p := range parts {
+			if i > 0 {
+				s += pick(r, seps)
+			}
+			s += p
+		}
 		if r.Intn(3) == 0 {
-			s += "/"
+			s += pick(r, seps)
 		}
 		if r.Intn(6) == 0 {
 			s = strings.TrimPrefix(s, "/")
@@ -872,7 +881,7 @@ func streamIndex(o opts) {
 		// (a) sequential + interleaved stores on distinct keys, removals, invalidations
 		mw := newMW(pick(r, []int64{3, 8, 1000}), httpcache.PathExtractorFromKey)
 		ctx := fmt.Sprintf("index round %d", round)
-		paths := []string{"/a", "/a/b", "/a/b/c", "/x", "/x/y", "/"}
+		paths := []string{"/a", "/a/b", "/a/b/c", "/x", "/x/y", "/", "/a///b", "//a", "/a/b//", "/x////y", "/a/b///c/"}
 		pending := map[string]*httpcache.Response{}
 		for i := 0; i < 60; i++ {
 			key := "GET:" + pick(r, paths)
@@ -893,7 +902,7 @@ func streamIndex(o opts) {
 					mw.VerifDeleteKey(key)
 				}
 			case 5:
-				pat := pick(r, []string{"/a", "/a/*", "/x/*", "/*", "/a/b/", "//a//b"})
+				pat := pick(r, []string{"/a", "/a/*", "/x/*", "/*", "/a/b/", "//a//b", "/a///b", "/x///*", "/a/b////c"})
 				busy := false
 				for k := range pending {
 					_ = k
@@ -978,6 +987,59 @@ func streamIndex(o opts) {
 		}
 		mw2.Close()
 		m.nontrivial(fmt.Sprintf("late/%d", round%20))
+	}
+	// (c) free-running late notifications: per key GET (cached), Invalidate (removal queued), GET again (re-cached) while
+	// the notifier delivers the late removal; a rendezvous inside the PathExtractor lines the two up.
+	{
+		var racing atomic.Bool
+		var raceKey atomic.Value
+		var arrived atomic.Int32
+		raceKey.Store("")
+		ext := func(key string) string {
+			if racing.Load() && raceKey.Load().(string) == key {
+				n := arrived.Add(1)
+				target := (n + 1) / 2 * 2
+				for t0 := time.Now(); arrived.Load() < target && time.Since(t0) < 200*time.Millisecond; {
+					runtime.Gosched()
+				}
+			}
+			return httpcache.PathExtractorFromKey(key)
+		}
+		mw := newMW(0, ext)
+		h := mw.Wrap(http.HandlerFunc(func(w http.ResponseWriter, rq *http.Request) { w.Write([]byte("ok")) }))
+		get := func(path string) string {
+			rec := httptest.NewRecorder()
+			h.ServeHTTP(rec, httptest.NewRequest("GET", path, nil))
+			return rec.Header().Get("X-Cache")
+		}
+		rounds := 150 * o.n
+		if rounds > 60000 {
+			rounds = 60000
+		}
+		watch("index late-notification race")
+		for i := 0; i < rounds; i++ {
+			path := fmt.Sprintf("/race/%d", i)
+			get(path)
+			raceKey.Store("GET:" + path)
+			racing.Store(true)
+			mw.Invalidate(path)
+			get(path)
+			racing.Store(false)
+		}
+		unwatch()
+		quiescentCheck(mw, fmt.Sprintf("late-notification race, %d keys", rounds))
+		mw.Invalidate("/race/*")
+		stale := 0
+		for i := 0; i < rounds; i++ {
+			if get(fmt.Sprintf("/race/%d", i)) == "HIT" {
+				stale++
+			}
+		}
+		if stale > 0 {
+			m.violate("C15", fmt.Sprintf("late-notification race: %d of %d responses under /race/ were still served after Invalidate(/race/*) returned", stale, rounds), "late-notification race")
+		}
+		mw.Close()
+		m.count("late_race_keys")
 	}
 	// known finding F5: overlapping stores of one key
 	{
